@@ -226,6 +226,47 @@ Proof.
 Qed.
 
 
+(* ---- the fuel of a single poll_flush is always enough ---- *)
+Definition wmeasure (w : wstate) : nat :=
+  (length (qbytes w) + length (frames w) + match curf w with Some _ => 1 | None => 0 end)%nat.
+
+Lemma take_frame_measure w f w0 :
+  take_frame w = Some (f, w0) ->
+  curf w0 = None /\ (length f + length (concat (frames w0)) + length (frames w0) + 1 <= wmeasure w)%nat.
+Proof.
+  unfold take_frame, wmeasure, qbytes. destruct (curf w) as [g|].
+  - intros H. injection H as <- <-. cbn [curf frames]. split; [reflexivity|]. rewrite app_length. lia.
+  - destruct (frames w) as [|g t]; [discriminate|]. intros H. injection H as <- <-. cbn [curf frames concat length app].
+    split; [reflexivity|]. rewrite app_length. lia.
+Qed.
+
+Lemma gflush_total : forall fuel s w sent, (wmeasure w < fuel)%nat -> gflush K fuel s w sent <> None.
+Proof.
+  induction fuel as [|fu IH]; intros s w sent Hm; [lia|]. cbn [gflush].
+  destruct (take_frame w) as [[f w0]|] eqn:Etf.
+  - destruct (take_frame_measure _ _ _ Etf) as (Hc0 & Hle).
+    destruct (c_write K s (lenN f)) as [a s1]. destruct a as [|n|]; try discriminate.
+    destruct ((N.min n (lenN f) =? 0) && negb (is_nil f)) eqn:Ez; [discriminate|].
+    set (k := N.min n (lenN f)) in *.
+    match goal with |- context [gflush K fu s1 ?w1 ?sn] =>
+      assert (Hrec : gflush K fu s1 w1 sn <> None); [apply IH|destruct (gflush K fu s1 w1 sn) as [[[[[? ?] ?] ?] ?]|]; [discriminate|congruence]]
+    end.
+    unfold wmeasure, qbytes. cbn [curf frames].
+    pose proof (lenN_dropN k f) as Hd. unfold lenN in Hd.
+    destruct (is_nil (dropN k f)) eqn:En.
+    + cbn [app length]. lia.
+    + cbn [length]. rewrite app_length.
+      (* the frame is not empty, so at least one byte was taken *)
+      assert (Hk : 0 < k).
+      { destruct (N.eq_dec k 0) as [Hz|Hz]; [|lia]. rewrite Hz in Ez. rewrite N.eqb_refl in Ez. cbn [andb] in Ez.
+        apply negb_false_iff, is_nil_true in Ez. subst f. rewrite dropN_all in En by (rewrite lenN_nil; lia). discriminate. }
+      assert (Hkl : k <= lenN f) by (unfold k; lia). unfold lenN in Hkl. lia.
+  - destruct (c_flush K s) as [a s1]. discriminate.
+Qed.
+
+Lemma flush_fuel_enough w : (wmeasure w < flush_fuel w)%nat.
+Proof. unfold wmeasure, flush_fuel. destruct (curf w); lia. Qed.
+
 (* ---- consequences: what Proofs.v shows for every script holds over every carrier ---- *)
 
 Definition ginit (s0 : S) : @gsys S := mkG init_w [] s0 false.
